@@ -633,6 +633,8 @@ class World:
             if k == "$obj":
                 import math
 
+                if v[1] in ("speccls", "speccls2"):  # a spec CLASS (not an instance) as a value
+                    return self.classes["U" if v[1] == "speccls" else "N"]
                 return {"func": _module_level_function, "func2": _module_level_function2, "class": int, "class2": str, "module": math}[v[1]]
             if k in ("klintkey", "ksintkey"):
                 from spec_classes.types import KeyedList, KeyedSet
